@@ -1,4 +1,58 @@
-(* placeholder until the agent model lands: keeps the build target alive *)
-From Coq Require Import NArith.
-Theorem C14_placeholder : (0 = 0)%N. Proof. reflexivity. Qed.
-Print Assumptions C14_placeholder.
+(* C14 - end markers go to the old tunnel, once.  Statements only. *)
+From Coq Require Import NArith List Bool.
+From UPF Require Import Model.IPPool Model.Fteid Model.PortRange Model.Agent Proofs.AgentProofs.
+Import ListNotations.
+Open Scope N_scope.
+
+(* the specification (Proofs/AgentProofs.v: spec_markers): walk the Update FAR IEs in order over the
+   current FAR list; an update of a known id with the flag yields ONE marker carrying source, destination
+   and TEID of the FAR as stored BEFORE that update; then the update is applied *)
+
+(* 1. only Session Modification emits end markers: none for creations (establishment) or anything else *)
+Theorem C14_only_modifications : forall burst a c connected m draws a' c' o,
+  handle burst a c connected m draws = Done (a', c', o) ->
+  (forall seid cpf cp cf cq up uf uq rp rf rq, m <> MMod seid cpf cp cf cq up uf uq rp rf rq) -> o_markers o = [].
+Proof. exact other_messages_no_markers. Qed.
+Print Assumptions C14_only_modifications.
+
+(* 2. a modification emits nothing (rejected before the datapath was programmed, or no flagged update),
+      or exactly spec_markers of its Update FAR IEs over the FAR list the session has at that point
+      (stored FARs plus the FARs created earlier in the same message) - and only if end markers are enabled *)
+Theorem C14_exact : forall burst a c seid cpf cp cf cq up uf uq rp rf rq a' c' o,
+  handle_mod burst a c seid cpf cp cf cq up uf uq rp rf rq = Done (a', c', o) ->
+  o_markers o = [] \/
+  exists w w', mod_update_f uf seid (g_access (a_cfg a)) (g_core (a_cfg a)) w = (w', true) /\ w_marks w = [] /\
+               (exists ups, parse_all (fun i => parse_far i seid (g_access (a_cfg a)) (g_core (a_cfg a)) true) uf = Some ups /\
+                            o_markers o = if g_end_marker (a_cfg a) then spec_markers ups (view (w_f w)) else []).
+Proof. exact mod_markers. Qed.
+Print Assumptions C14_exact.
+
+(* 3. consequences of the specification: updates without the flag emit none; updates of unknown FAR ids
+      (failed updates) emit none; never more than one marker per flagged update *)
+Theorem C14_unflagged_none : forall ups cur, (forall f, In f ups -> a_em f = false) -> spec_markers ups cur = [].
+Proof. exact spec_markers_unflagged. Qed.
+Print Assumptions C14_unflagged_none.
+Theorem C14_unknown_none : forall ups cur,
+  (forall f, In f ups -> find_idx (fun x => a_id x =? a_id f) cur = None) -> spec_markers ups cur = [].
+Proof. exact spec_markers_unknown. Qed.
+Print Assumptions C14_unknown_none.
+Theorem C14_at_most_one_per_flagged_update : forall ups cur, (length (spec_markers ups cur) <= length (filter a_em ups))%nat.
+Proof. exact spec_markers_length. Qed.
+Print Assumptions C14_at_most_one_per_flagged_update.
+
+(* 4. old - not new - tunnel: one flagged update of a known FAR yields exactly the marker of the stored value *)
+Theorem C14_old_tunnel : forall f old cur k, find_idx (fun x => a_id x =? a_id f) cur = Some k -> nth k cur far0 = old ->
+  a_em f = true -> spec_markers [f] cur = [Marker (a_tsrc old) (a_tdst old) (a_teid old)].
+Proof. intros f old cur k Hk Ho He. cbn [spec_markers]. rewrite Hk, Ho, He. reflexivity. Qed.
+Print Assumptions C14_old_tunnel.
+
+(* non-vacuity: a session whose FAR 2 points to tunnel (src 100, dst 9, TEID 4); the update moves it to
+   (dst 8, TEID 6) with the flag: one marker, to the OLD tunnel; the stored FAR is the new one *)
+Example C14_nonvacuous :
+  let a := Agent (Cfg 100 200 true) None (Gen 0 []) 1 no_tables in
+  let s := Sess 5 77 (s_of []) (s_of [Far 2 5 0 false 2 1 100 9 4 2152]) (s_of []) in
+  let upd := FarIE (IOk 2) (IOk 2) IErr (IOk [FDst (IOk 0); FOhc (IOk (6, Some 8)); FSm (IOk 2)]) in
+  exists a' c', handle (fun _ _ _ => 0) a (Conn 7 [] [s] 0) true (MMod 5 None [] [] [] [] [upd] [] [] [] []) []
+                = Done (a', c', Out (Some (RMod 77 CAUSE_OK)) [Cmd MFar true [2; 5] [1; 0; 1; 100; 8; 6; 2152]] [Marker 100 9 4] false)
+                /\ map (fun x => view (s_fars x)) (c_sessions c') = [[Far 2 5 0 true 2 1 100 8 6 2152]].
+Proof. eexists; eexists; split; vm_compute; reflexivity. Qed.
